@@ -270,9 +270,10 @@ func RunAddUnderLoad(w *World, idx int) {
 	var recs []rec
 	base := w.NextWID
 	w.NextWID += 5000
+	wseed := r.U64() // drawn here: the generator is not shared with the writer goroutine
 	go func() {
 		defer wg.Done()
-		rr := vk.NewRand(r.U64())
+		rr := vk.NewRand(wseed)
 		id := base
 		for {
 			select {
